@@ -20,7 +20,7 @@ RULE = ("Hypothesis: (a) arbitrary streams of 0-60 vocabulary tokens drawn class
         "-5..6). For (b) additionally info_time_bar[i] = onset - start of its grid bar and info_time never decreases. "
         "Non-trivial: the stream holds a note token after a bar or signature token. Distinct by case digest.")
 ASSUMPTIONS = ["annotations of non-note tokens (nan or imputed values) are not part of the statement beyond their presence"]
-TIERS = {"quick": dict(shards=8, examples=1200), "thorough": dict(shards=16, examples=12000)}
+TIERS = {"quick": dict(shards=8, examples=1200), "thorough": dict(fuzz_runs=20000, fuzz_shards=4, shards=16, examples=12000)}
 
 
 def _fifths(pc):
